@@ -85,6 +85,9 @@ func Setup(tmpDir string) error {
 type NetEnv struct {
 	K      *sim.Kernel
 	Srv    *refsmtpd.Server
+	// Later: servers for the second, third, … connection (the peer may behave differently each
+	// time the client dials); connections beyond the list are served by Srv.
+	Later  []*refsmtpd.Server
 	Pipes  []*sim.Pipe
 	Faults []sim.ConnFaults // per connection (index = dial order); the last one repeats
 	// DialFail makes the n-th dial (1-based) return an error without opening a connection.
@@ -126,7 +129,8 @@ func (e *NetEnv) Dial(ctx context.Context, network, addr string) (net.Conn, erro
 	}
 	p := sim.NewPipe(e.K, len(e.Pipes)+1, f)
 	e.Pipes = append(e.Pipes, p)
-	e.K.GoDaemon(fmt.Sprintf("server-%d", p.ID), func() { e.Srv.Serve(p) })
+	srv := e.ServerOf(p.ID)
+	e.K.GoDaemon(fmt.Sprintf("server-%d", p.ID), func() { srv.Serve(p) })
 	if e.ImplicitTLS {
 		host := e.Host
 		if host == "" {
@@ -231,9 +235,20 @@ func containsAny(s string, subs ...string) bool {
 	return false
 }
 
+// ServerOf returns the server that serves connection id (1-based).
+func (e *NetEnv) ServerOf(id int) *refsmtpd.Server {
+	if id >= 2 && id-2 < len(e.Later) {
+		return e.Later[id-2]
+	}
+	return e.Srv
+}
+
 // Freeze stops the server history (called before the tasks are unwound in abort mode).
 func (e *NetEnv) Freeze() {
 	e.Srv.H.Freeze()
+	for _, s := range e.Later {
+		s.H.Freeze()
+	}
 }
 
 // RunPlain runs f with deterministic crypto/rand, outside any bubble (render-only properties
